@@ -15,8 +15,12 @@
      periph 0..2,  tr 0..3 (transits),  depot BOOLEAN,  lag, bio BOOLEAN
      metab  BOOLEAN     a metabolite compartment fed by the central compartment instead of the output
      zoin   BOOLEAN     a zero-order input into the central compartment (set_zero_order_input)
-     cov, iiv, fixd, rcov  BOOLEAN: a covariate effect / an extra IIV / a fixed theta has been added, a covariate effect
-                        removed (no structural effect; RCL / RV edit ONE variable of a multi-assignment block IF of pheno_block)
+     edit   0..3   statement-level edits with no structural effect, a fixed script:  0 -COV-> 1 (add_covariate_effect exp,
+                   a new theta) -CAT-> 2 (add_covariate_effect cat2: a Piecewise written as several one-line IFs)
+                   -RCOV-> 3 (remove the first effect again: the thetas behind it are renumbered)
+     iov    0..2   0 -IOV-> 1 (add_iov: one-line IFs per occasion, $ABBR) -RIOV-> 2 (remove_iov)
+     rcov   BOOLEAN  a covariate effect of the start model removed (RCL / RV edit ONE variable of the multi-assignment
+                   block IF of pheno_block);  IIV (add_iiv) and FIX (fix_parameters) do not change the state
      trans  0..4        TRANS of the control stream (0: none, after a $DES model)
    Graph of a state: nodes in the order the code numbers them
        TRANSIT1..tr, DEPOT (if depot), CENTRAL, METABOLITE (if metab), PERIPHERAL1..periph;   0 = output.     *)
@@ -30,13 +34,14 @@ VARIABLE s
 vars == <<s>>
 
 Vec(a, p, d, t) == [abs |-> a, elim |-> "FO", periph |-> p, tr |-> 0, depot |-> d, lag |-> FALSE, bio |-> FALSE,
-                    metab |-> FALSE, zoin |-> FALSE, cov |-> FALSE, iiv |-> FALSE, fixd |-> FALSE, rcov |-> FALSE, trans |-> t]
+                    metab |-> FALSE, zoin |-> FALSE, edit |-> 0, iov |-> 0, rcov |-> FALSE, trans |-> t]
 StartState ==
     ("pheno_real"   :> Vec("INST", 0, FALSE, 2)) @@      \* ADVAN1 TRANS2
     ("pheno_block"  :> Vec("INST", 0, FALSE, 2)) @@      \* ADVAN1 TRANS2, TVCL and TVV assigned in one IF / ELSE block
     ("mox2"         :> Vec("FO",   0, TRUE,  2)) @@      \* ADVAN2 TRANS2
     ("pheno_advan3" :> Vec("INST", 1, FALSE, 3)) @@      \* ADVAN3 TRANS3
-    ("pheno_advan4" :> Vec("FO",   1, TRUE,  3))         \* ADVAN4 TRANS3
+    ("pheno_advan4" :> Vec("FO",   1, TRUE,  3)) @@      \* ADVAN4 TRANS3
+    ("oral2_cmt"    :> Vec("FO",   1, TRUE,  4))         \* ADVAN4 TRANS4 with an active CMT data column (doses CMT 1, observations CMT 2)
 
 \* ------------------------------------------------------------------ the graph of a state
 NTr(t)  == t.tr
@@ -134,7 +139,9 @@ ActDef ==
     ("B:1"    :> Tok("B", "on", 0))   @@ ("B:0" :> Tok("B", "off", 0)) @@
     ("M:BASIC" :> Tok("M", "basic", 0)) @@
     ("ZI"     :> Tok("Z", "on", 0))   @@
-    ("COV"    :> Tok("X", "cov", 0))  @@ ("IIV" :> Tok("X", "iiv", 0)) @@ ("FIX" :> Tok("X", "fix", 0)) @@
+    ("COV"    :> Tok("X", "cov", 0))  @@ ("CAT" :> Tok("X", "cat", 0)) @@ ("RCOV" :> Tok("X", "uncov", 0)) @@
+    ("IOV"    :> Tok("X", "iov", 0))  @@ ("RIOV" :> Tok("X", "uniov", 0)) @@
+    ("IIV"    :> Tok("X", "iiv", 0))  @@ ("FIX" :> Tok("X", "fix", 0)) @@
     ("RCL"    :> Tok("X", "rcov", 0)) @@ ("RV"  :> Tok("X", "rcov", 1))
 AllActs == DOMAIN ActDef
 
@@ -153,9 +160,11 @@ Post(p, a) ==
       [] a.k = "B" -> [p EXCEPT !.bio = (a.v = "on")]
       [] a.k = "M" -> [p EXCEPT !.metab = TRUE]
       [] a.k = "Z" -> [p EXCEPT !.zoin = TRUE]
-      [] a.k = "X" -> CASE a.v = "cov" -> [p EXCEPT !.cov = TRUE] [] a.v = "iiv" -> [p EXCEPT !.iiv = TRUE]
+      [] a.k = "X" -> CASE a.v = "cov" -> [p EXCEPT !.edit = 1] [] a.v = "cat" -> [p EXCEPT !.edit = 2]
+                        [] a.v = "uncov" -> [p EXCEPT !.edit = 3]
+                        [] a.v = "iov" -> [p EXCEPT !.iov = 1] [] a.v = "uniov" -> [p EXCEPT !.iov = 2]
                         [] a.v = "rcov" -> [p EXCEPT !.rcov = TRUE]
-                        [] OTHER -> [p EXCEPT !.fixd = TRUE]
+                        [] OTHER -> p
 
 Enabled(p, a) ==
     /\ (a.k = "P" /\ a.v = "add" => p.periph < MaxPeriph)
@@ -166,6 +175,9 @@ Enabled(p, a) ==
     /\ (a.k = "Z" => ~p.zoin /\ ~p.metab)
     /\ (a.k = "E" => ~p.metab)
     /\ (a.k = "X" /\ a.v = "rcov" => ~p.rcov)
+    /\ (a.k = "X" /\ a.v = "cov" => p.edit = 0) /\ (a.k = "X" /\ a.v = "cat" => p.edit = 1)
+    /\ (a.k = "X" /\ a.v = "uncov" => p.edit = 2)
+    /\ (a.k = "X" /\ a.v = "iov" => p.iov = 0) /\ (a.k = "X" /\ a.v = "uniov" => p.iov = 1)
     /\ Compatible(Post(p, a))
 
 Succs(p, tok) ==
@@ -185,7 +197,7 @@ DoLagTime         == \E tok \in {"L:1", "L:0"} : Step(tok)
 DoBioavailability == \E tok \in {"B:1", "B:0"} : Step(tok)
 DoAddMetabolite   == Step("M:BASIC")
 DoZeroOrderInput  == Step("ZI")
-DoParameterEdit   == \E tok \in {"COV", "IIV", "FIX", "RCL", "RV"} : Step(tok)
+DoParameterEdit   == \E tok \in {"COV", "CAT", "RCOV", "IOV", "RIOV", "IIV", "FIX", "RCL", "RV"} : Step(tok)
 Next == \/ DoSetAbsorption \/ DoSetElimination \/ DoSetPeripherals \/ DoSetTransits \/ DoLagTime
         \/ DoBioavailability \/ DoAddMetabolite \/ DoZeroOrderInput \/ DoParameterEdit
 Spec == Init /\ [][Next]_vars
